@@ -1167,13 +1167,30 @@ hdf_get_vgclass(int32 vkey, char *vgclass)
 }
 
 /* ----------------------------------------------------------------
+** Vinquire into a buffer of H4_MAX_NC_NAME + 1 bytes.  The name of a
+** Vgroup is not limited in length; one that is longer than any name this
+** interface can hold is refused instead of being copied.
+*/
+static int
+hdf_vinquire(int32 vkey, int32 *nentries, char *vgname)
+{
+    uint16 len = 0;
+
+    if (Vgetnamelen(vkey, &len) == FAIL)
+        return FAIL;
+    if (len > H4_MAX_NC_NAME)
+        return FAIL;
+    return Vinquire(vkey, nentries, vgname);
+}
+
+/* ----------------------------------------------------------------
 ** Read in the dimensions out of a cdf structure
 ** Return FAIL if something goes wrong
 */
 int
 hdf_read_dims(XDR *xdrs, NC *handle, int32 vg)
 {
-    char     vgname[H4_MAX_NC_NAME]   = "";
+    char     vgname[H4_MAX_NC_NAME + 1] = "";
     char     vsclass[H4_MAX_NC_CLASS] = "";
     char     vgclass[H4_MAX_NC_CLASS] = "";
     int      id, count, i, found;
@@ -1219,7 +1236,7 @@ hdf_read_dims(XDR *xdrs, NC *handle, int32 vg)
                 is_dimval   = FALSE;
                 is_dimval01 = FALSE;
 
-                if (Vinquire(dim, &entries, vgname) == FAIL)
+                if (hdf_vinquire(dim, &entries, vgname) == FAIL)
                     HGOTO_FAIL(FAIL);
 
                 /*
@@ -1531,8 +1548,8 @@ done:
 int
 hdf_read_vars(XDR *xdrs, NC *handle, int32 vg)
 {
-    char vgname[H4_MAX_NC_NAME]  = "";
-    char subname[H4_MAX_NC_NAME] = "";
+    char vgname[H4_MAX_NC_NAME + 1]  = "";
+    char subname[H4_MAX_NC_NAME + 1] = "";
     char class[H4_MAX_NC_CLASS]  = "";
     NC_var      **variables      = NULL;
     NC_var       *vp             = NULL;
@@ -1610,7 +1627,7 @@ hdf_read_vars(XDR *xdrs, NC *handle, int32 vg)
                 rag_ref    = 0;
                 is_rec_var = FALSE;
 
-                if (Vinquire(var, &n, vgname) == FAIL) {
+                if (hdf_vinquire(var, &n, vgname) == FAIL) {
                     HGOTO_FAIL(FAIL);
                 }
 
@@ -1640,7 +1657,7 @@ hdf_read_vars(XDR *xdrs, NC *handle, int32 vg)
                                 if (!strcmp(dimclass, _HDF_UDIMENSION))
                                     is_rec_var = TRUE;
 
-                                if (FAIL == Vinquire(sub, &entries, subname)) {
+                                if (FAIL == hdf_vinquire(sub, &entries, subname)) {
                                     HGOTO_FAIL(FAIL);
                                 }
 
